@@ -48,11 +48,11 @@ theorem expandParse_go_frame : ∀ l e, Pres Frame (expandParse.go e l) := by
   have h := fun l e => expandParse_go_frame l e
   frame_start; unfold expandParse; wp_go
 
-theorem slugify_suffix_frame (ids : List Str) (slug : Str) : ∀ fuel i, Pres Frame (slugify.suffix ids slug fuel i) := by
+theorem slugify_suffix_frame (ids : List Str) (slug : Str) : ∀ fuel i, Pres Frame (slugSuffix ids slug fuel i) := by
   intro fuel
   induction fuel with
-  | zero => intro i; frame_start; unfold slugify.suffix; wp_go
-  | succ n ih => intro i; frame_start; unfold slugify.suffix; wp_go
+  | zero => intro i; frame_start; unfold slugSuffix; wp_go
+  | succ n ih => intro i; frame_start; unfold slugSuffix; wp_go
 
 @[frame] theorem slugify_frame (t : Str) : Pres Frame (slugify t) := by
   have h := slugify_suffix_frame
@@ -139,10 +139,15 @@ theorem macroDefContentFilter_step (text : Str) (mt : Match) (e : Expand) :
 include hd
 
 set_option maxHeartbeats 1600000 in
-theorem renderBlock_step (d : BlockDef) (mt : Match) (r : Reader) (w : Writer) :
-    Pres Step (renderBlock rec env d mt r w) := by
+theorem renderBlockBody_step (d : BlockDef) (mt : Match) (r : Reader) (w : Writer) :
+    Pres Step (renderBlockBody rec env d mt r w) := by
   have hr := replaceInline_frame rec env hs
   have hm := macroDefContentFilter_step rec env hs
+  step_start; unfold renderBlockBody; wp_go
+
+theorem renderBlock_step (d : BlockDef) (mt : Match) (r : Reader) (w : Writer) :
+    Pres Step (renderBlock rec env d mt r w) := by
+  have hb := renderBlockBody_step rec env hs hd
   step_start; unfold renderBlock; wp_go
 
 theorem delimitedGo_step (allowed : List Str) :
